@@ -426,6 +426,17 @@ def run_e2e(ctx, model, n):
 
 
 # ------------------------------------------------------------------ the check
+def make_harnesses(ctx):
+    """debug build: overflow checks and debug assertions on; release build: both off (asked of the binaries themselves)"""
+    hs = {"debug": Harness(ctx, "consteval"), "release": Harness(ctx, "consteval", release=True)}
+    for b, want in (("debug", [1, 1]), ("release", [0, 0])):
+        got = hs[b].run([[2]])[0]
+        if got != want:
+            raise FrameworkError("%s harness build reports (debug_assertions, overflow_checks) = %s, expected %s" % (b, got, want))
+    ctx.cov["builds"] = {"debug": "debug_assertions + overflow checks on", "release": "both off (opt-level 0: see harness/consteval/Cargo.toml)"}
+    return hs
+
+
 def evaluate(ctx, cases, harnesses, model):
     """returns per case: dict(impl={build: res}, model={build: res}, judge={build: [verdict, pyval, known]})"""
     impl = {b: h.run([impl_case(c) for c in cases]) for b, h in harnesses.items()}
@@ -453,7 +464,8 @@ def run(ctx):
     ctx.cov["rule"] = ("(operator, operand pair) through ValueObj::try_<op> / Context::eval_bin / ValueObj::try_binary / eval_unary_val, "
                        "each under a debug and a release build; operands Int(i32), Nat(u64), Float(f64 bits), Bool drawn from a "
                        "boundary-heavy pool (0, +-1, 2^31+-1, 2^32, 2^53+-1, 2^63+-1, 2^64-1, signed zeros, inf, nan, subnormals) mixed with "
-                       "small and uniformly random values; thorough adds all pairs over a 29-value boundary set for every operator; "
+                       "small and uniformly random values, 18% numerically neighbouring operands of different kinds (an integer and its float conversion +-1 ulp), "
+                       "ill-typed combinations (Bool with arithmetic, shifts) as the malformed stream; thorough adds all pairs over a 29-value boundary set for every operator; "
                        "plus programs `N = a op b` through the erg CLI. distinct = canonical (api, op, a, b); non-trivial = the "
                        "implementation folded the expression to a value (not `not evaluated`)")
     ctx.cov["trusted_base"] = ["Coq 8.16.1 kernel", "extraction (ExtrOcamlBasic only) + extract/driver.ml",
@@ -465,7 +477,7 @@ def run(ctx):
                        "`and`/`or` are given their `&`/`|` meaning, which is the Python meaning on Bool, the only operands the checker admits",
                        "the CompilerSystemError diagnostic printed when a constant definition is not evaluated counts as 'reported as a diagnostic'"]
     proof = ctx.coq(["ConstEval/Props_C04.v"])
-    harnesses = {"debug": Harness(ctx, "consteval"), "release": Harness(ctx, "consteval", release=True)}
+    harnesses = make_harnesses(ctx)
     model = ctx.model("ConstEval")
 
     cases = load_corpus()
@@ -518,7 +530,7 @@ def run(ctx):
     ctx.cov["known_class_float_pow"] = {"cases": len(kc), "folded_value_differs_from_CPython": kdiff}
 
     # end to end
-    e2e_bad = run_e2e(ctx, model, ctx.scale(120, 1500)) if not NOFIX else []
+    e2e_bad = run_e2e(ctx, model, ctx.scale(120, 600)) if not NOFIX else []
 
     # known finding: float ** through libm
     for k in ctx.known():
@@ -579,7 +591,7 @@ def replay(ctx, path):
         print("replay file names no input (broken correspondence/theorem): re-running the whole check")
         return run(ctx)
     c = tuple(case["case"])
-    harnesses = {"debug": Harness(ctx, "consteval"), "release": Harness(ctx, "consteval", release=True)}
+    harnesses = make_harnesses(ctx)
     e = evaluate(ctx, [c], harnesses, model)[0]
     for b in harnesses:
         print(json.dumps(describe(c, e, b)), "verdict:", e["judge"][b][0])
